@@ -36,5 +36,6 @@ def run(e, R, tier):
         SC.r_scn_wakeprim,
         SC.r_scn_manager,
         SC.r_scn_start,
+        L.r_block_mgr,
     ])
     R.trust("multiprocessing.connection.wait returns the ready subset; Process.sentinel becomes ready when the process ends")
